@@ -178,6 +178,9 @@ class Normalise(ast.NodeTransformer):
     def visit_If(self, n):
         self.generic_visit(n)
         n.test = _test(n.test)
+        if isinstance(n.test, ast.Constant) and isinstance(n.test.value, bool):
+            keep = n.body if n.test.value else n.orelse   # N17: the branch a literal test selects
+            return keep if keep else ast.copy_location(ast.Pass(), n)
         two = n.orelse and not (len(n.orelse) == 1 and isinstance(n.orelse[0], ast.If))
         if two and isinstance(n.test, ast.UnaryOp) and isinstance(n.test.op, ast.Not):
             n.test, n.body, n.orelse = n.test.operand, n.orelse, n.body
@@ -199,6 +202,8 @@ class Normalise(ast.NodeTransformer):
 
     def visit_IfExp(self, n):
         self.generic_visit(n)
+        if isinstance(n.test, ast.Constant) and isinstance(n.test.value, bool):
+            return n.body if n.test.value else n.orelse   # N17
         return _canon_ifexp(n)
 
     def visit_comprehension(self, n):
@@ -226,6 +231,11 @@ class Normalise(ast.NodeTransformer):
 
     def visit_Compare(self, n):
         self.generic_visit(n)
+        # N17: a comparison of two literals (left behind when a helper's parameter was replaced by a constant argument) is its value
+        if len(n.ops) == 1 and isinstance(n.left, ast.Constant) and isinstance(n.comparators[0], ast.Constant) and isinstance(n.ops[0], (ast.Eq, ast.NotEq)) \
+                and type(n.left.value) is type(n.comparators[0].value) and isinstance(n.left.value, (str, int, bool)):
+            eq = n.left.value == n.comparators[0].value
+            return ast.copy_location(ast.Constant(value=eq if isinstance(n.ops[0], ast.Eq) else not eq), n)
         if len(n.ops) == 1 and type(n.ops[0]) in _MIRROR:
             l, r = n.left, n.comparators[0]
             swap = (_is_lit(l) and not _is_lit(r)) or (not _is_lit(l) and not _is_lit(r) and isinstance(n.ops[0], (ast.Gt, ast.GtE)))
